@@ -18,13 +18,19 @@ VERIF = sub.VERIF
 DIR = None
 
 
+_CTX = [None]   # the per-process context (worker: its own; main: the local context once created)
+
+
 class Viol:
     """one oracle failure. kind: short stable class; sig: fields that identify the failing input class
     (used to match known findings); detail: human text; case: JSON-able payload that eval_case replays"""
-    __slots__ = ("prop", "kind", "sig", "detail", "case")
+    __slots__ = ("prop", "kind", "sig", "detail", "case", "base")
 
     def __init__(self, prop, kind, sig=None, detail="", case=None):
         self.prop, self.kind, self.sig, self.detail, self.case = prop, kind, dict(sig or {}), detail, case
+        # the scratch base the failing run used: confirmation and replay re-create exactly this path, because the tool
+        # iterates over sets of absolute paths and their order (string hashes) depends on the path text
+        self.base = _CTX[0].base if _CTX[0] is not None else None
 
     def key(self):
         return (self.prop, self.kind, json.dumps(self.sig, sort_keys=True))
@@ -37,8 +43,11 @@ class Viol:
 # worker pool
 
 class Ctx:
-    def __init__(self, tag="w"):
-        self.base = sub.new_scratch(tag)
+    def __init__(self, tag="w", base=None):
+        if base is not None:
+            sub.rm(base)
+            os.makedirs(base)
+        self.base = base or sub.new_scratch(tag)
         self.root = os.path.join(self.base, "root")
         self.run = sub.Runner("in")
         self.n = 0
@@ -54,7 +63,6 @@ class Ctx:
         sub.rm(self.base)
 
 
-_CTX = [None]
 _FUNC = {}
 
 
@@ -132,9 +140,22 @@ class Engine:
             sub.install_seams()
             sub.install_audit()
             self.local = Ctx("m")
+            _CTX[0] = self.local
         return self.local
 
     def close(self):
+        self.shutdown_pool()
+        if self.local is not None:
+            self.local.close()
+        # workers cannot clean up after themselves
+        base = sub.shm_base()
+        for n in os.listdir(base):
+            if n.startswith("mhlmc."):
+                pid = n.split(".")[1]
+                if not os.path.exists(f"/proc/{pid}") or pid == str(os.getpid()):
+                    sub.rm(os.path.join(base, n))
+
+    def shutdown_pool(self):
         if self.pool is not None:
             # graceful shutdown (workers leave on the sentinel); terminate() only as a fallback, and never
             # wait for it indefinitely - scratch directories are removed below either way
@@ -158,15 +179,6 @@ class Engine:
                     except OSError:
                         pass
                 time.sleep(0.2)
-        if self.local is not None:
-            self.local.close()
-        # workers killed by terminate() cannot clean up after themselves
-        base = sub.shm_base()
-        for n in os.listdir(base):
-            if n.startswith("mhlmc."):
-                pid = n.split(".")[1]
-                if not os.path.exists(f"/proc/{pid}") or pid == str(os.getpid()):
-                    sub.rm(os.path.join(base, n))
 
     # -- bookkeeping
     def outcome(self, cls, n=1):
@@ -188,6 +200,7 @@ class Engine:
     # -- finishing: known findings, confirmation, lines, evidence
     def finish(self, coverage, eval_case=None):
         from . import findings
+        self.shutdown_pool()   # the workers' scratch paths are re-used by the confirmation runs
         known = findings.load()
         lines = []
         n_viol = 0
@@ -241,9 +254,13 @@ class Engine:
         return 1 if n_viol else 0
 
     def _confirm(self, eval_case, v):
-        ctx = self.local_ctx()
-        old = ctx.run
+        self.local_ctx()
+        shm = sub.shm_base()
+        same_path = v.base and v.base.startswith(os.path.join(shm, "mhlmc.")) and v.base != self.local.base
+        ctx = Ctx("c", base=v.base) if same_path else Ctx("c")
         ctx.run = sub.Runner("sub")
+        keep = _CTX[0]
+        _CTX[0] = ctx
         try:
             for _ in range(2):
                 got = eval_case(ctx, v.case)
@@ -251,13 +268,14 @@ class Engine:
                     return False
             return True
         finally:
-            ctx.run = old
+            _CTX[0] = keep
+            ctx.close()
 
     def _write_replay(self, v, cnt):
         d = os.path.join(VERIF, "replays")
         os.makedirs(d, exist_ok=True)
         blob = json.dumps({"property": self.prop, "kind": v.kind, "sig": v.sig, "detail": v.detail, "count": cnt,
-                           "case": v.case}, sort_keys=True, indent=1, default=_json_default)
+                           "scratch_base": v.base, "case": v.case}, sort_keys=True, indent=1, default=_json_default)
         h = hashlib.sha1((v.kind + json.dumps(v.sig, sort_keys=True)).encode()).hexdigest()[:10]
         path = os.path.join(d, f"{self.prop}-{h}.json")
         with open(path, "w") as f:
@@ -459,7 +477,10 @@ def replay_file(path, eval_case, prop):
     case = unjson(j["case"])
     sub.install_seams()
     sub.install_audit()
-    ctx = Ctx("r")
+    b = j.get("scratch_base")
+    ok_base = b and b.startswith(os.path.join(sub.shm_base(), "mhlmc.")) and not os.path.exists(b)
+    ctx = Ctx("r", base=b) if ok_base else Ctx("r")
+    _CTX[0] = ctx
     ctx.run = sub.Runner("sub")
     try:
         got = eval_case(ctx, case)
